@@ -575,20 +575,20 @@ def _is_table(e, tab):
 
 
 def _count_paths(e, tab, targets):
-    """Set of possible push counts over the paths through `e` that complete normally
-    (paths ending in return / break-out are excluded).  MANY if a nested loop or closure pushes."""
+    """Set of (count, ended) outcomes over the paths through `e`: `count` pushes into the table so far,
+    `ended` True when the path left the item scope with `continue` (item finished), False when it falls
+    through.  Paths ending in return / break are excluded (failed item or end of table).
+    count is MANY if a nested loop or closure pushes."""
     e = unwrap(e)
     if not isinstance(e, dict):
-        return {0}
+        return {(0, False)}
     k = e.get("k")
-    if k in ("Ret",):
-        return set()
-    if k == "Break":
+    if k in ("Ret", "Break"):
         return set()
     if k == "Continue":
-        return {0}   # next item: the scope ends here with what was pushed so far
+        return {(0, True)}
     if k == "BlockExpr":
-        acc = {0}
+        acc = {(0, False)}
         b = e["block"]
         seq = []
         for s in b.get("stmts", []):
@@ -597,20 +597,17 @@ def _count_paths(e, tab, targets):
             elif s.get("k") == "Let":
                 if s.get("init") is not None:
                     seq.append(s["init"])
-                if s.get("els") is not None:
-                    pass
         if b.get("expr") is not None:
             seq.append(b["expr"])
         for x in seq:
-            r = _count_paths(x, tab, targets)
-            acc = _seq(acc, r)
+            acc = _seq(acc, _count_paths(x, tab, targets))
             if not acc:
                 return set()
         return acc
     if k == "If":
         c = _count_paths(e["cond"], tab, targets)
         t = _count_paths(e["then"], tab, targets)
-        f = _count_paths(e["els"], tab, targets) if e.get("els") is not None else {0}
+        f = _count_paths(e["els"], tab, targets) if e.get("els") is not None else {(0, False)}
         return _seq(c, t | f)
     if k == "Match":
         s = _count_paths(e["scrut"], tab, targets)
@@ -620,21 +617,17 @@ def _count_paths(e, tab, targets):
         for a in e["arms"]:
             arms |= _count_paths(a["body"], tab, targets)
         return _seq(s, arms)
-    if k == "Loop":
+    if k in ("Loop", "Closure"):
         inner = any(m.get("k") == "MethodCall" and m["name"] in ("push", "insert") and _is_table(m["recv"], tab) for m in walk(e))
-        return {MANY} if inner else {0}
-    if k == "Closure":
-        inner = any(m.get("k") == "MethodCall" and m["name"] in ("push", "insert") and _is_table(m["recv"], tab) for m in walk(e))
-        return {MANY} if inner else {0}
+        return {(MANY, False)} if inner else {(0, False)}
     if k == "MethodCall":
         acc = _count_paths(e["recv"], tab, targets)
         for a in e["args"]:
             acc = _seq(acc, _count_paths(a, tab, targets))
         if e["name"] in ("push", "insert", "push_back") and _is_table(e["recv"], tab):
-            acc = _seq(acc, {1})
+            acc = _seq(acc, {(1, False)})
         return acc
-    # generic: sequence over children expressions
-    acc = {0}
+    acc = {(0, False)}
     for key, v in e.items():
         if key in ("span", "ty", "aty", "res", "callee", "pat"):
             continue
@@ -651,12 +644,15 @@ def _count_paths(e, tab, targets):
 
 def _seq(a, b):
     out = set()
-    for x in a:
-        for y in b:
+    for (x, xe) in a:
+        if xe:
+            out.add((x, True))
+            continue
+        for (y, ye) in b:
             if x == MANY or y == MANY:
-                out.add(MANY)
+                out.add((MANY, ye))
             else:
-                out.add(x + y)
+                out.add((x + y, ye))
     return out
 
 
@@ -699,7 +695,7 @@ def r_sst(ctx, rep, only=None):
                 continue
             scopes[id(sc)] = (sc, desc)
         for sc, desc in scopes.values():
-            counts = _count_paths(sc, tab, set())
+            counts = {c for c, _ in _count_paths(sc, tab, set())}
             if counts == {1}:
                 rep.holds("R-SST", key, loc(sc), "%s: every completing path through the %s pushes exactly one entry into `%s`" % (what, desc, tab[1]))
             else:
@@ -1348,3 +1344,214 @@ def r_rangepre(ctx, rep, only=None):
                 rep.violation("R-RANGEPRE", key, loc(c), "%s calls Range::range(start, end) with corners taken from the header-row option / the file, and nothing establishes start <= end first: Range::new asserts it, so a header row below the last used row (or a table reference smaller than its header/totals rows) panics with 'invalid range bounds'" % fn.name)
     if n < 4:
         rep.anchor_missing("R-RANGEPRE", "Range::range call sites in the readers (found %d)" % n)
+
+
+# ----------------------------------------------------------------------------------------------
+# R-FMTPREC
+
+
+def r_fmtprec(ctx, rep):
+    """In every style loader the number formats *declared by the workbook* take precedence over the
+    built-in id table: the built-in lookup is only reached where the declared lookup failed."""
+    F = ctx.facts("default")
+    n = 0
+    for fname in ("xlsx::Xlsx::read_styles", "xlsb::Xlsb::read_styles", "xls::Xls::parse_workbook"):
+        fn = F.fn(fname)
+        if fn is None:
+            rep.anchor_missing("R-FMTPREC", fname)
+            continue
+        builtin_calls = [(c, anc) for c, anc in walk_anc(fn.body) if c.get("k") == "Call" and (callee(c) or "").startswith("formats::builtin_format_by_")]
+        if not builtin_calls:
+            rep.anchor_missing("R-FMTPREC", "built-in format lookup in %s" % fname)
+            continue
+        for c, anc in builtin_calls:
+            n += 1
+            key = "%s|R-FMTPREC" % fname
+            # the call must sit in the failure arm (None / catch-all) of a match over `<declared>.get(..)`,
+            # or in an unwrap_or_else / or_else closure applied to such a lookup
+            ok = False
+            for i in range(len(anc) - 1, -1, -1):
+                a = anc[i]
+                if a.get("k") == "Match" and a.get("src") in ("Normal", None):
+                    sc = peel(a["scrut"])
+                    if sc.get("k") == "MethodCall" and sc["name"] == "get" and _is_declared_table(sc["recv"]):
+                        arm = next((x for x in a["arms"] if any(y is c for y in walk(x["body"]))), None)
+                        if arm is not None:
+                            ks, ca = pat_keys(arm["pat"])
+                            if ca or any(k == ("path", "None") for k in ks):
+                                ok = True
+                        break
+                    if any(x is c for x in walk(a["scrut"])):
+                        # the built-in table is the *scrutinee*: it is consulted first
+                        ok = False
+                        break
+                if a.get("k") == "MethodCall" and a["name"] in ("unwrap_or_else", "or_else", "map_or_else") and any(x is c for x in walk(a["args"])):
+                    r = peel(a["recv"])
+                    while r.get("k") == "MethodCall" and r["name"] in ("copied", "cloned", "map"):
+                        r = peel(r["recv"])
+                    if r.get("k") == "MethodCall" and r["name"] == "get" and _is_declared_table(r["recv"]):
+                        ok = True
+                    break
+            if ok:
+                rep.holds("R-FMTPREC", key, loc(c), "the built-in id table is consulted only when the workbook declares no format for the id")
+            else:
+                rep.violation("R-FMTPREC", key, loc(c), "%s consults the built-in id table before (or instead of) the formats declared by the workbook: a style whose id is re-declared by the file (e.g. id 14 as \"0.00\", or id 20 as \"[hh]:mm:ss\") is typed by the built-in meaning, not by the format it actually refers to" % fname)
+    if n < 3:
+        rep.anchor_missing("R-FMTPREC", "built-in format lookups in the three style loaders (found %d)" % n)
+
+
+def _is_declared_table(e):
+    t = norm_ty((peel(e).get("ty") or "") + (peel(e).get("aty") or ""))
+    return "BTreeMap" in t or "HashMap" in t
+
+
+# ----------------------------------------------------------------------------------------------
+# R-ODSPARA
+
+
+def r_odspara(ctx, rep):
+    """ods: paragraphs of a string cell are joined by '\\n': the separator is pushed for every <text:p>
+    start except the first, decided by a dedicated flag - not by properties of the text read so far."""
+    F = ctx.facts("default")
+    fn = F.fn("ods::get_datatype")
+    if fn is None:
+        rep.anchor_missing("R-ODSPARA", "ods::get_datatype")
+        return
+    key = "ods::get_datatype|R-ODSPARA"
+    found = False
+    for em in event_matches(fn):
+        for arm in em["match"]["arms"]:
+            if "text:p" not in guard_literals(arm) or _arm_event_variant(arm, em["wrapped"]) != "Start":
+                continue
+            found = True
+            pushes = [(m, anc) for m, anc in walk_anc(arm["body"]) if m.get("k") == "MethodCall" and m["name"] == "push" and m["args"] and lit_value(m["args"][0]) == "\n"]
+            if not pushes:
+                rep.violation("R-ODSPARA", key, loc(arm), "the <text:p> arm never appends a newline: paragraphs of a cell would be concatenated without separator")
+                continue
+            m, anc = pushes[0]
+            str_lid = path_local(m["recv"])[1] if path_local(m["recv"]) else None
+            conds = [a["cond"] for a in anc if a.get("k") == "If"]
+            flag_assigned = {path_local(a["l"])[1] for a in walk_k(arm["body"], "Assign") if path_local(a["l"]) and isinstance(lit_value(a["r"]), bool)}
+            uses_flag = any(p.get("res", {}).get("lid") in flag_assigned for c in conds for p in walk_k(c, "Path"))
+            uses_text = any(p.get("res", {}).get("lid") == str_lid for c in conds for p in walk_k(c, "Path"))
+            if conds and uses_flag and not uses_text:
+                rep.holds("R-ODSPARA", key, loc(m), "newline pushed on every <text:p> but the first, decided by a paragraph flag")
+            elif not conds:
+                rep.violation("R-ODSPARA", key, loc(m), "the <text:p> arm appends a newline unconditionally: a single-paragraph cell would start with a newline")
+            else:
+                rep.violation("R-ODSPARA", key, loc(m), "the <text:p> arm decides the paragraph separator from the text read so far (or without a first-paragraph flag): empty paragraphs are legal, so leading / repeated empty paragraphs would lose their line breaks")
+    if not found:
+        rep.anchor_missing("R-ODSPARA", "the <text:p> start arm of ods::get_datatype")
+
+
+# ----------------------------------------------------------------------------------------------
+# R-MINMAX
+
+
+def r_minmax(ctx, rep):
+    """Bounding-box accumulators: in a loop that maintains a running minimum and a running maximum
+    of the same quantity, the maximum update must not be skipped when the minimum was updated
+    (`if x < lo {..} else if x > hi {..}` loses the maximum of a strictly decreasing prefix)."""
+    F = ctx.facts("default")
+    n = 0
+    for fn in F.user_fns():
+        if fn.file not in ("src/lib.rs", "src/ods.rs", "src/xlsx/mod.rs", "src/xlsb/mod.rs", "src/xls.rs"):
+            continue
+        for lp in walk_k(fn.body, "Loop"):
+            ups = []   # (if node, kind, accumulator lid, compared expr shape, nested_in_else_of)
+            for i, anc in walk_anc(lp["body"]):
+                if i.get("k") != "If":
+                    continue
+                c = unwrap(i["cond"])
+                if c.get("k") != "Binary" or c["op"] not in ("<", ">", "<=", ">="):
+                    continue
+                acc = path_local(c["r"])
+                if not acc:
+                    continue
+                assigns = [a for a in walk_k(i["then"], "Assign") if path_local(a["l"]) and path_local(a["l"])[1] == acc[1]]
+                if not assigns or shape(assigns[0]["r"]) != shape(c["l"]):
+                    continue
+                kind = "min" if c["op"] in ("<", "<=") else "max"
+                in_else_of = [a for a in anc if a.get("k") == "If" and a.get("els") is not None and any(x is i for x in walk(a["els"]))]
+                ups.append((i, kind, acc, shape(c["l"]), in_else_of))
+            mins = [u for u in ups if u[1] == "min"]
+            maxs = [u for u in ups if u[1] == "max"]
+            for mn in mins:
+                for mx in maxs:
+                    if mn[3] != mx[3]:
+                        continue
+                    n += 1
+                    key = "%s|R-MINMAX|%s/%s" % (fn.name, mn[2][0], mx[2][0])
+                    bad = any(e is mn[0] for e in mx[4]) or any(e is mx[0] for e in mn[4])
+                    if bad:
+                        rep.violation("R-MINMAX", key, loc(mx[0]), "%s updates the running maximum `%s` only when the running minimum `%s` was not updated (else-if): when the largest value is also a new minimum (e.g. the first cell is the right-most column) the bounding box is too small and cells are misplaced" % (fn.name, mx[2][0], mn[2][0]))
+                    else:
+                        rep.holds("R-MINMAX", key, loc(mn[0]), "running minimum `%s` and maximum `%s` are updated independently" % (mn[2][0], mx[2][0]))
+    if n < 1:
+        rep.anchor_missing("R-MINMAX", "a min/max bounding-box accumulation (Range::from_sparse)")
+
+
+# ----------------------------------------------------------------------------------------------
+# R-AUTODETECT
+
+
+XLSX_MANDATORY = ("xl/_rels/workbook.xml.rels", "xl/workbook.xml")
+
+
+def r_autodetect(ctx, rep):
+    """Content-based detection tries Xls, Xlsx, Xlsb, Ods in that order and takes the first reader whose
+    `new` succeeds, so every reader must reject the other formats' files.  Necessary condition decided
+    here: opening a zip that lacks the format's mandatory part is an error (xlsx: the workbook part or
+    its relationships; xlsb: xl/workbook.bin; ods: mimetype)."""
+    F = ctx.facts("default")
+    # xlsx
+    hits = []
+    for fn in F.fns_in("src/xlsx/mod.rs"):
+        for m in walk_k(fn.body, "Match"):
+            sc = peel(m["scrut"])
+            if sc.get("k") != "Call" or (callee(sc) or "") != "xlsx::xml_reader":
+                continue
+            part = lit_value(sc["args"][1]) if len(sc["args"]) > 1 else None
+            if part not in XLSX_MANDATORY:
+                continue
+            for a in m["arms"]:
+                ks, ca = pat_keys(a["pat"])
+                if any(k == ("path", "None") for k in ks):
+                    errs = any((path_def(x) or "").endswith("Result::Err") for x in walk_k(a["body"], "Path"))
+                    hits.append((part, errs and always_leaves(a["body"], set()), a))
+    key = "xlsx|R-AUTODETECT|mandatory-part"
+    if any(h[1] for h in hits):
+        h = next(h for h in hits if h[1])
+        rep.holds("R-AUTODETECT", key, loc(h[2]), "a zip without `%s` is rejected by Xlsx::new" % h[0])
+    elif hits:
+        rep.violation("R-AUTODETECT", key, loc(hits[0][2]), "Xlsx::new accepts a zip archive that has neither xl/workbook.xml nor xl/_rels/workbook.xml.rels (both lookups treat a missing part as success): format auto-detection tries Xlsx before Xlsb and Ods, so every xlsb/ods workbook would be returned as an empty Xlsx workbook")
+    else:
+        rep.anchor_missing("R-AUTODETECT", "xml_reader lookups of the mandatory xlsx parts")
+    # xlsb: RecordIter::from_zip(.., "xl/workbook.bin")? propagated
+    fn = F.fn("xlsb::Xlsb::read_workbook")
+    key = "xlsb|R-AUTODETECT|mandatory-part"
+    ok = False
+    if fn:
+        for c, anc in walk_anc(fn.body):
+            if c.get("k") == "Call" and (callee(c) or "").endswith("RecordIter::from_zip") and len(c["args"]) > 1 and lit_value(c["args"][1]) == "xl/workbook.bin":
+                if any(a.get("k") == "Match" and a.get("src") == "TryDesugar" for a in anc) and not any(a.get("k") == "Match" and a.get("src") != "TryDesugar" for a in anc):
+                    ok = True
+    if ok:
+        rep.holds("R-AUTODETECT", key, loc(fn.raw), "a zip without xl/workbook.bin is rejected by Xlsb::new (from_zip(..)? propagates FileNotFound)")
+    else:
+        rep.violation("R-AUTODETECT", key, loc(fn.raw) if fn else "-", "Xlsb::new does not reject a zip without xl/workbook.bin")
+    # ods: mimetype
+    new = next((f for f in F.fns if f.impl_self == "ods::Ods" and f.impl_trait == "Reader" and f.name.endswith("::new")), None)
+    key = "ods|R-AUTODETECT|mandatory-part"
+    ok = False
+    if new:
+        for m in walk_k(new.body, "Match"):
+            sc = peel(m["scrut"])
+            if sc.get("k") == "MethodCall" and sc["name"] == "by_name" and lit_value(sc["args"][0]) == "mimetype":
+                errarms = [a for a in m["arms"] if (pat_variant(a["pat"]) or "").endswith("Result::Err")]
+                if errarms and all(always_leaves(a["body"], set()) for a in errarms):
+                    ok = True
+    if ok:
+        rep.holds("R-AUTODETECT", key, loc(new.raw), "a zip without a mimetype entry is rejected by Ods::new")
+    else:
+        rep.violation("R-AUTODETECT", key, loc(new.raw) if new else "-", "Ods::new does not reject a zip without a mimetype entry")
